@@ -29,6 +29,16 @@ ASSUMPTIONS = [
 ]
 
 UTC = _d.timezone.utc
+
+
+def sr(v):
+    """repr for messages that cannot fail: the field type's own str() goes through the display zone and may overflow."""
+    try:
+        if isinstance(v, _d.datetime):
+            return "%s(fold=%d)" % (_d.datetime.isoformat(v), v.fold)
+        return repr(v)
+    except Exception as e:  # noqa: B902
+        return "<unprintable %s: %s>" % (type(v).__name__, type(e).__name__)
 EPOCH = _d.datetime(1970, 1, 1, tzinfo=UTC)
 
 
@@ -107,24 +117,24 @@ def check_construct(case, ctx):
             raise Violation(sig + "/raised", "datetime(%r) raised %r" % (secs, res), detail=res.type)
         v = res.value
         if v.tzinfo is None or v.utcoffset() != _d.timedelta(0):
-            raise Violation(sig + "/not-utc", "datetime(%r) -> %r" % (secs, v))
+            raise Violation(sig + "/not-utc", "datetime(%r) -> %s" % (secs, sr(v)))
         if tol is not None:
             diff = abs((v - exp_dt) / _d.timedelta(microseconds=1))
             if diff > tol:
-                raise Violation(sig + "/instant", "datetime(%r) -> %r, expected %r (off by %s us)" % (secs, v, exp_dt, diff))
+                raise Violation(sig + "/instant", "datetime(%r) -> %s, expected %r (off by %s us)" % (secs, sr(v), exp_dt, diff))
         return
     if not res.ok:
         raise Violation(sig + "/raised", "%s of %r raised %r" % (form, d, res), detail=res.type)
     v = res.value
     if not isinstance(v, ft.datetime):
-        raise Violation(sig + "/class", "%r is not a datetime field value" % (v,))
+        raise Violation(sig + "/class", "%s is not a datetime field value" % (sr(v),))
     if v.tzinfo is None:
         raise Violation(sig + "/naive", "%s of %r gave a naive value" % (form, d))
     got = wall_off(v)
     if got != exp:
         what = "fold" if (got[:7] == exp[:7] and d.fold) else "wall" if got[:7] != exp[:7] else "offset"
-        raise Violation(sig + "/" + what, "%s of %r (fold=%d, offset %s) -> %r (offset %s)"
-                        % (form, d, d.fold, exp[7], v, got[7]), detail=tzkind(d))
+        raise Violation(sig + "/" + what, "%s of %r (fold=%d, offset %s) -> %s (offset %s)"
+                        % (form, d, d.fold, exp[7], sr(v), got[7]), detail=tzkind(d))
 
 
 def tzkind(d):
@@ -228,7 +238,7 @@ def check_roundtrip(case, ctx):
 
         res = impl(rt)
         if not res.ok:
-            raise Violation("roundtrip/%s/raised" % fmt.split(".")[0], "round trip of %r raised %r" % (vals, res), detail=res.type)
+            raise Violation("roundtrip/%s/raised" % fmt.split(".")[0], "round trip of %s raised %r" % ([sr(x) for x in vals], res), detail=res.type)
         got = res.value
         if len(got) != len(vals):
             raise Violation("roundtrip/%s/count" % fmt, "wrote %d read %d" % (len(vals), len(got)))
@@ -238,14 +248,14 @@ def check_roundtrip(case, ctx):
                 pairs += [("tss[0]", v, r.tss[0]), ("tss[1]", vals[0], r.tss[1])]
             for name, a, b in pairs:
                 if not isinstance(b, _d.datetime) or b.tzinfo is None:
-                    raise Violation("roundtrip/%s/not-aware" % fmt.split(".")[0], "%s read back as %r" % (name, b))
+                    raise Violation("roundtrip/%s/not-aware" % fmt.split(".")[0], "%s read back as %s" % (name, sr(b)))
                 if fmt == "avro":
                     ia = a.astimezone(UTC)
                     if wall_off(b) != wall_off(ia):
-                        raise Violation("roundtrip/avro/instant", "%s: wrote %r (UTC %r), read %r" % (name, a, ia, b))
+                        raise Violation("roundtrip/avro/instant", "%s: wrote %s (UTC %s), read %s" % (name, sr(a), sr(ia), sr(b)))
                 elif wall_off(a) != wall_off(b):
                     what = "offset" if wall_off(a)[:7] == wall_off(b)[:7] else "wall"
-                    raise Violation("roundtrip/%s/%s" % (fmt.split(".")[0], what), "%s: wrote %r read %r" % (name, a, b),
+                    raise Violation("roundtrip/%s/%s" % (fmt.split(".")[0], what), "%s: wrote %s read %s" % (name, sr(a), sr(b)),
                                     detail=tzkind(a))
     finally:
         shutil.rmtree(tmp, ignore_errors=True)
